@@ -46,7 +46,7 @@ def _class_ranges(items):
             rs.append((av[0], av[1]))
         elif op is C.CATEGORY:
             if av is C.CATEGORY_DIGIT:
-                rs += ranges('digit')           # str.isdigit ~ \\d for the characters the repository patterns use (validated in selftest on ASCII)
+                rs += ranges('decimal')         # \\d of a str pattern = Unicode category Nd = str.isdecimal
             elif av is C.CATEGORY_SPACE:
                 rs += chars_to_ranges(chr(w) for w in WS)
             elif av is C.CATEGORY_WORD:
